@@ -19,6 +19,13 @@ from cryptoparser.common.exception import InvalidType, NotEnoughData
 from cryptoparser.common.parse import ParserText, ParsableBase, ParsableBaseNoABC, ComposerText
 
 
+def _to_printable(value):
+    if isinstance(value, (bytes, bytearray)):
+        return bytes(value).decode('ascii', 'replace')
+
+    return value
+
+
 class FieldParsableBase(ParsableBase):
     @classmethod
     @abc.abstractmethod
@@ -568,7 +575,7 @@ class FieldValueComponentStringEnum(FieldValueComponentKeyValueBase):
         try:
             parser.parse_parsable('value', cls._get_value_type())
         except InvalidValue as e:
-            six.raise_from(InvalidValue(e.value.decode('ascii'), cls, 'value'), e)
+            six.raise_from(InvalidValue(_to_printable(e.value), cls, 'value'), e)
 
     def _get_value_as_simple_type(self):
         return self.value.value.code
@@ -666,9 +673,9 @@ class FieldsJson(FieldValueBase):
     @classmethod
     def _parse(cls, parsable):
         try:
-            raw_values = json.loads(parsable.decode('ascii'), object_pairs_hook=collections.OrderedDict)
+            raw_values = json.loads(bytes(parsable).decode('ascii'), object_pairs_hook=collections.OrderedDict)
         except ValueError as e:  # json.decoder.JSONDecodeError is derived from ValueError
-            six.raise_from(InvalidValue(six.ensure_text(parsable, 'ascii'), cls, 'value'), e)
+            six.raise_from(InvalidValue(_to_printable(parsable), cls, 'value'), e)
 
         attr_fields_dict = attr.fields_dict(cls)
 
@@ -1012,7 +1019,7 @@ class FieldValueStringEnum(FieldValueSingleComplexBase):
         try:
             value = cls._get_value_type().parse_exact_size(parsable)
         except InvalidValue as e:
-            six.raise_from(InvalidValue(six.ensure_text(parsable, 'ascii'), cls, 'value'), e)
+            six.raise_from(InvalidValue(_to_printable(parsable), cls, 'value'), e)
 
         return cls(value), len(parsable)
 
